@@ -457,15 +457,16 @@ Definition fn_of_op (o : opd) : fn :=
   | OExtend _ => L_extend_tuple | OIndex _ => L_index | OInsert _ _ => L_insert | ORemove _ => L_remove
   | MInsert _ _ => M_insert | MRemove _ => M_remove | MGet _ => M_get | MContains _ => M_contains_key
   | MSize => M_size | MClear => M_clear | MGetIndex _ => M_get_index | MUpdate _ _ => M_update
+  | OExtendGen _ => L_extend_gen | OResize _ _ => L_resize | OFill _ => L_fill | OReverse => L_reverse
+  | OSort => L_sort | ORetainVal _ => L_retain_value | MExtendGen _ => M_extend_gen | MSort => M_sort
   end.
 
 Definition op_is_single (o : opd) : bool := negb (mem (fn_of_op o) multi_section_fns).
 
 Lemma op_single l o : op_is_single o = true -> single cstate res (prog_of l o).
 Proof.
-  destruct o; simpl; intro H; try discriminate; unfold sect1; simpl; eauto.
-  - destruct (i <? 0)%Z; simpl; eauto.
-  - destruct (i <? 0)%Z; simpl; eauto.
+  destruct o; simpl; intro H; try discriminate; unfold sect1; simpl; eauto;
+    match goal with |- context [if ?c then _ else _] => destruct c end; simpl; eauto.
 Qed.
 
 Theorem stress_ops_linearizable_proof : forall init (threads : list (list opd)) sched,
@@ -508,3 +509,8 @@ Proof.
   - reflexivity.
   - destruct (m_get m k) eqn:E; cbn; rewrite ?E; cbn; rewrite ?m_get_insert; cbn; reflexivity.
 Qed.
+
+(* ------------------------------------------------------------------------------------------ *)
+(* borrow pins *)
+Lemma pinned_consistent_proof : forallb pin_consistent pinned_borrows = true.
+Proof. vm_compute. reflexivity. Qed.
